@@ -737,4 +737,34 @@ theorem FixOk.fmtOk {fmt : Fmt} (h : FixOk fmt) : fmt.Ok := by
   · intro ⟨_, h0⟩; have := h.bits1; omega
   · have hh := h.fracLe; have := h.bits64; split at hh <;> omega
 
+/-- the exact scaled value `v * 2^n_frac` as a rational number -/
+def scaledRat (fmt : Fmt) (v : Dy) : ℚ := v.toRat * (2 : ℚ) ^ fmt.frac
+
+theorem scaledNum_rat (fmt : Fmt) (v : Dy) :
+    (scaledNum fmt v : ℚ) = scaledRat fmt v * (scaledDen fmt v : ℚ) := by
+  unfold scaledNum scaledDen scaledRat Dy.toRat
+  rw [num_den_rat, zpow_add₀ (by norm_num)]; ring
+
+theorem cast_cmp_le (a n d : Int) (x : ℚ) (hd : 0 < d) (hn : (n : ℚ) = x * d) :
+    a * d ≤ n ↔ (a : ℚ) ≤ x := by
+  have hd' : (0 : ℚ) < d := by exact_mod_cast hd
+  rw [← @Int.cast_le ℚ]; push_cast; rw [hn]
+  exact mul_le_mul_iff_of_pos_right hd'
+
+theorem cast_cmp_le' (a n d : Int) (x : ℚ) (hd : 0 < d) (hn : (n : ℚ) = x * d) :
+    n ≤ a * d ↔ x ≤ (a : ℚ) := by
+  have hd' : (0 : ℚ) < d := by exact_mod_cast hd
+  rw [← @Int.cast_le ℚ]; push_cast; rw [hn]
+  exact mul_le_mul_iff_of_pos_right hd'
+
+theorem cast_cmp_lt (a n d : Int) (x : ℚ) (hd : 0 < d) (hn : (n : ℚ) = x * d) :
+    a * d < n ↔ (a : ℚ) < x := by
+  have := cast_cmp_le' a n d x hd hn
+  rw [← not_le, this, not_le]
+
+theorem cast_cmp_lt' (a n d : Int) (x : ℚ) (hd : 0 < d) (hn : (n : ℚ) = x * d) :
+    n < a * d ↔ x < (a : ℚ) := by
+  have := cast_cmp_le a n d x hd hn
+  rw [← not_le, this, not_le]
+
 end Rig.C16
